@@ -3,6 +3,7 @@
   for `LiveCfgB` / `NcCfgB` (`s0.alg = .batch …`).  Generated from Live20.lean by renaming (suffix `_B`);
   the algorithm-dependent ones are rewritten (see the comments).
 -/
+import TopsimProofs.Fit2
 import TopsimProofs.Live20
 import TopsimProofs.LiveB5
 import TopsimProofs.LiveB6
@@ -47,7 +48,9 @@ section
 variable {env : SimEnv} {s0 : Sys}
 
 theorem ncOrder_B (N : NcCfgB env s0) : NcOrderB env s0 where
-  prov := fun n hc _ _ hpk hpp ha _ _ hk hpc => nc_provIngest_fits_B N n hc hpk hpp ha hk hpc
+  -- F14: from the accounting invariant `sim_fit` (Fit2), no `OneAdmission` hypothesis
+  prov := fun n _ _ _ _ hpp ha _ _ hk hpc =>
+    sim_provIngest_fits env s0 N.hw N.hb0.1 _ (simAt_reach env s0 n) (proc?_some hpp).1 ha hk hpc
   alloc := fun n hc _ _ hpk hpp ha _ _ _ _ _ hk hpc => nc_allocTask_idle_B N n hc hpk hpp ha hk hpc
 
 /-- **No block raises** (BatchProcessing; H1: no tiering; H2: one admission per telescope block). -/
